@@ -33,6 +33,19 @@ theorem tables (f : Family) :
         n = "kty" ∨ n ∈ PublicSpec f ∨ (f = .oct ∧ n = "k")) := by
   cases f <;> decide
 
+/-- RFC 7638 §3.2 (EC, RSA, oct) and RFC 8037 §2 (OKP): the required members, in lexicographic order -/
+def Rfc7638Members : Family → List String
+  | .ec => ["crv", "kty", "x", "y"]
+  | .rsa => ["e", "kty", "n"]
+  | .oct => ["k", "kty"]
+  | .okp => ["crv", "kty", "x"]
+
+/-- **the thumbprint input lists exactly the RFC 7638 members, in RFC 7638 order** (the list is regenerated
+from `thumbprint_hash_input` on every run) -/
+theorem thumbprint_members_rfc7638 (f : Family) :
+    thumbprintMembers.lookup f.tag = some (Rfc7638Members f) := by
+  cases f <;> decide
+
 def hasPrivate (j : Jwk) : Prop := ∃ n ∈ PrivateSpec j.family, j.has n = true
 
 /-- well-formed: the members present are members of the family's struct; an `oct` key always has `k` -/
